@@ -85,7 +85,58 @@ pub fn response_fill_msg(rng: &mut Rng, m: &Model, target: usize) -> Option<Vec<
 
 /// byte stream of one of the classes of DESIGN 4.2
 pub fn any_stream(rng: &mut Rng, m: &Model, n: usize, max: usize) -> (Vec<u8>, &'static str) {
-    match rng.below(13) {
+    match rng.below(14) {
+        13 => {
+            // numeric literal fuzz: long digit strings, boundary exponents, blanks next to
+            // the exponent marker, signs and dots in odd places - as arguments of handlers
+            // that take numbers
+            use simcore::spec::P;
+            let nums: Vec<&simcore::spec::Spelled> = m.spelled.iter().filter(|sp| m.decl(sp.decl).params.iter().any(|p| !matches!(p, P::Str | P::Blk | P::Bool))).collect();
+            let mut s = Vec::new();
+            for _ in 0..rng.range(1, 3) {
+                if nums.is_empty() {
+                    break;
+                }
+                let sp = *rng.pick(&nums);
+                let d = m.decl(sp.decl);
+                s.extend_from_slice(sp.path.join(":").as_bytes());
+                if d.query {
+                    s.push(b'?');
+                }
+                for (i, _p) in d.params.iter().enumerate() {
+                    s.push(if i == 0 { b' ' } else { b',' });
+                    let mut lit: Vec<u8> = Vec::new();
+                    if rng.chance(1, 3) {
+                        lit.push(*rng.pick(b"+-"));
+                    }
+                    let nd = *rng.pick(&[1usize, 1, 3, 9, 17, 20, 33, 40]);
+                    for k in 0..nd {
+                        lit.push(if k == 0 { *rng.pick(b"123456789") } else { *rng.pick(b"0000123456789") });
+                    }
+                    if rng.chance(1, 2) {
+                        lit.push(b'.');
+                        for _ in 0..rng.below(12) {
+                            lit.push(*rng.pick(b"0123456789"));
+                        }
+                    }
+                    if rng.chance(2, 3) {
+                        if rng.chance(1, 4) {
+                            lit.push(*rng.pick(b" \t"));
+                        }
+                        lit.push(*rng.pick(b"Ee"));
+                        if rng.chance(1, 4) {
+                            lit.push(b' ');
+                        }
+                        let e: i64 = *rng.pick(&[0i64, 1, -1, 37, 38, 39, -45, 307, 308, 309, -324, 32000, 32001, -32000, -32001, 32767, 32768, -32767, -32768, -32769, 65536, 99999, -99999, 2147483647, -2147483648]);
+                        lit.extend_from_slice(if e >= 0 && rng.chance(1, 2) { format!("+{e}") } else { format!("{e}") }.as_bytes());
+                    }
+                    s.extend_from_slice(&lit);
+                }
+                s.push(b'\n');
+            }
+            s.truncate(max.max(160));
+            (s, "numeric-fuzz")
+        }
         12 => {
             // a long definite-length block (hundreds of bytes) and a long string
             let mut s = Vec::new();
